@@ -4,6 +4,7 @@ import itertools
 import numpy as np
 
 from . import common as C
+from translate import partition as TP
 
 PID = 'C14'
 SHARD_SIZE = 250
@@ -11,6 +12,10 @@ IMPORTS = ['C14.Model', 'C14.Corr']
 
 DY = [0.0, 0.25, 0.5, 1.0, 1.5, 2.0, 3.0]          # dyadic offsets
 STEPS = [0.25, 0.5, 1.0, 1.5, 2.0, 3.0]
+
+
+def translate():
+    return {'Gen/Partition.v': TP.translate()}
 
 
 # ----------------------------------------------------------------- literals
@@ -450,6 +455,17 @@ def correspondence(rng, tier):
         add('OFromIntv %s %s %s %s' % (C.qs(lo), C.qs(hi), zs(shape), flags_lit(fl)), out,
             {'op': 'fromintv', 'lo': lo, 'hi': hi, 'shape': shape, 'nodes_on_bdry': repr(pf)})
 
+    # fixed corner cases of the input validation
+    for lo, hi, shape, fl in [([0.0, 0.0], [1.0, 1.0], [2, 2], [(True, False), (False, False), (True, True)]),
+                              ([0.0, 0.0], [1.0, 1.0], [2, 2], [(True, False)]),
+                              ([0.0], [1.0], [2], [(True, False), (False, False), (True, True)])]:
+        out = impl(lambda: uniform_partition_fromintv(odl.IntervalProd(lo, hi), shape, nodes_on_bdry=fl))
+        add('OFromIntv %s %s %s %s' % (C.qs(lo), C.qs(hi), zs(shape), flags_lit(fl)), out,
+            {'op': 'fromintv', 'lo': lo, 'hi': hi, 'shape': shape, 'nodes_on_bdry': repr(fl)})
+    for lo, hi, css in [([0.0, 0.0], [1.0], [[0.5], [0.5]]), ([0.0], [1.0, 2.0], [[0.5]]), ([0.0], [1.0], [[0.5], [0.5]])]:
+        out = impl(lambda: odl.RectPartition(odl.IntervalProd(lo, hi), odl.RectGrid(*css)))
+        add('OInit %s %s %s' % (C.qs(lo), C.qs(hi), C.qss(css)), out, {'op': 'init', 'lo': lo, 'hi': hi, 'cs': css})
+
     # ---- OUniform: every subset of (min_pt, max_pt, shape, cell_sides), per axis
     for _ in range(200 * N):
         nd = rng.choice([1, 1, 2, 3])
@@ -866,6 +882,15 @@ def probes(rng, tier):
                    "observed = (snap(p), snap(q)); ok = observed == expected\n" % expr)
             probe('derived-array-is-fresh-' + name, 'overwriting the array returned by %s changes no observable of any partition on that grid' % expr, src)
 
+    # -- P11 invalid nodes_on_bdry (wrong number of axes) is a ValueError in every factory
+    for ctor in ("odl.uniform_partition([0, 0], [1, 1], (2, 2), nodes_on_bdry=fl)",
+                 "odl.uniform_partition_fromintv(odl.IntervalProd([0, 0], [1, 1]), (2, 2), nodes_on_bdry=fl)",
+                 "odl.nonuniform_partition([0, 1], [0, 1], nodes_on_bdry=fl)"):
+        src = (_PRE + "fl = [True, False, True]\ntry:\n    %s\n    observed = 'accepted'\nexcept Exception as e:\n"
+               "    observed = type(e).__name__\nexpected = 'ValueError'; ok = observed == expected\n" % ctor)
+        key = 'nodes_on_bdry-wrong-length-error-class' if 'fromintv' not in ctor else 'nodes_on_bdry-wrong-length-fromintv'
+        probe(key, 'nodes_on_bdry with the wrong number of axes raises ValueError', src)
+
     # -- P6 every consistent subset of (min_pt, max_pt, shape, cell_sides) gives the same partition
     for _ in range(40 * N):
         xmin, xmax, n, dx, fl = uniform_axis_params(rng, dyadic=rng.random() < 0.5)
@@ -896,9 +921,11 @@ ASSUMPTIONS = ['exact arithmetic: limits/coordinates are dyadic so that float re
                'the quotients in boundary fractions, floating indices and non-dyadic uniform grids)',
                'np.isclose / np.allclose decisions (nodes_on_bdry, is_uniform, consistency of four given parameters, '
                'rounding of the computed shape) are modelled as exact equality; inputs stay away from the tolerance band']
+ASSUMPTIONS.append('Q2R transfer of the executed model is PROVED (C14/Transfer.v, theorems transfer_*), not assumed')
 ASSUMPTIONS.append('the model is pure: observables are functions of (set, grid) only; independence from object history, '
                    'caches and caller-side writes is validated by the history cases and the aliasing probes, not proved')
-TRUSTED = ['C14/Model.v hand-written model of RectPartition, RectGrid/IntervalProd checks, normalized_index_expression, '
+TRUSTED = ['translate/partition.py (Python ast -> Gallina, fail-closed; typed expression grammar in its docstring)',
+           'C14/Model.v hand-written model of RectPartition, RectGrid/IntervalProd checks, normalized_index_expression, '
            'Python slice and NumPy integer-array indexing semantics (validated by the correspondence)']
 LEVEL_TEXT = ('Proof: for a hand-written Coq model of RectPartition / RectGrid / IntervalProd / normalized_index_expression '
               '(tied to the code by an in-Coq correspondence on ~1900 random operations per run), Coq proves for EVERY '
@@ -912,9 +939,12 @@ LEVEL_TEXT = ('Proof: for a hand-written Coq model of RectPartition / RectGrid /
               'same partition with that cell side. Five literal-text violations are proved as _refuted and listed as '
               'findings (one-point axes: cell size 0.0 and nodes_on_bdry placement; stepped slices / index lists keep the '
               'hull; integers below -n accepted; zero-extent axes have non-strict boundaries).')
-LEVEL_NOTE = ('Also proved: byaxis (selected axes unchanged), ellipsis / too-few-indices / integer normalisation, default '
+LEVEL_NOTE = ('The gmin/gmax formulas, completion formulas, boundary fractions, midpoint rule, index edge rules and the '
+              'integer bounds test are REGENERATED from /repo (Gen/Partition.v) and the model is proved to be built from them; '
+              'the model run at Q is proved to be the restriction of the model at R. Also proved: byaxis (selected axes unchanged), ellipsis / too-few-indices / integer normalisation, default '
               'limits of nonuniform_partition and uniform_partition_fromgrid (also explicit ones), increasing index lists, rejection of negative steps, squeeze(axis=i). Validated, not proved: the model itself '
               '(correspondence), unsorted/negative index lists, single-point negative steps, squeeze(axis=list|slice). '
               'np.isclose/allclose decisions are modelled as exact equality; float rounding is out of scope. '
               'Axioms: classical reals + funext as printed by Print Assumptions (insert/append/squeeze theorems are closed).')
-TECHNIQUE = 'Coq proofs by list induction over a hand-written model + in-Coq differential correspondence'
+TECHNIQUE = ('Coq proofs by list induction over a hand-written model built from source-regenerated formulas '
+             '(translate/partition.py) + proved Q2R transfer + in-Coq differential correspondence')
